@@ -19,3 +19,19 @@ Proof. exact second_call_disjoint. Qed.
 Theorem C16_restarting_overlaps : forall s k k', 0 < k -> 0 < k' ->
   exists p, In p (reads (fresh s) k) /\ In p (reads (fresh s) k').
 Proof. exact restarting_overlaps. Qed.
+
+(* every sub-sampler reads exactly as many variates as it needs; sampling with one generator in two successive
+   calls reads exactly the positions of one call with the concatenated requests (so earlier consumers are
+   unaffected by later ones); streams of different integer seeds never share a position *)
+Theorem C16_block_sizes : forall g ks, map (@List.length position) (fst (blocks g ks)) = ks.
+Proof. exact blocks_lengths. Qed.
+Theorem C16_calls_compose : forall g ks ks',
+  blocks g (ks ++ ks') =
+    (fst (blocks g ks) ++ fst (blocks (snd (blocks g ks)) ks'), snd (blocks (snd (blocks g ks)) ks')).
+Proof. exact blocks_app. Qed.
+Theorem C16_distinct_seeds_disjoint : forall s s' ks ks' p, s <> s' ->
+  In p (concat (fst (shared_plan (IntSeed s) ks))) -> ~ In p (concat (fst (shared_plan (IntSeed s') ks'))).
+Proof. exact distinct_seeds_disjoint. Qed.
+Example C16_compose_nonvacuous :
+  fst (blocks (fresh 7) ([2; 1] ++ [3])) = [[(7, 0); (7, 1)]; [(7, 2)]; [(7, 3); (7, 4); (7, 5)]].
+Proof. vm_compute. reflexivity. Qed.
